@@ -47,7 +47,7 @@ var goSrcFuncs = []string{
 	"Iter.Float", "Iter.FloatFlags", "Iter.Int", "Iter.Uint",
 	"Array.ForEach", "Array.DeleteElems", "Array.FirstType", "Object.ForEach", "Object.DeleteElems",
 	"isValidTrueAtom", "isValidFalseAtom", "isValidNullAtom", "parseNumber",
-	"Iter.MarshalJSONBuffer", "escapeBytes",
+	"Iter.MarshalJSONBuffer", "escapeBytes", "Array.MarshalJSONBuffer", "ParsedJson.ForEach",
 }
 
 type goBlock struct {
@@ -106,6 +106,7 @@ type lconstV struct {
 type gsTr struct {
 	pre      []string         // statements hoisted out of the expression being translated (calls with a result)
 	lazy     int              // > 0 while translating the right operand of && / ||: nothing may be hoisted from there
+	aliasParams map[string]bool // `i!=dst`: pointer comparisons of the body, passed by callers as hidden boolean parameters
 	ntemp    int
 	curSwLabel string         // label of the switch statement about to be translated
 	swLabels map[string]bool  // labels of switch statements
@@ -814,6 +815,7 @@ func (t *gsTr) binary(x *ast.BinaryExpr, want gty) (string, gty) {
 	if isCmp {
 		if a, ok := x.X.(*ast.Ident); ok && t.iters[a.Name] {
 			if b, ok := x.Y.(*ast.Ident); ok && t.iters[b.Name] && (x.Op == token.EQL || x.Op == token.NEQ) {
+				t.aliasParams[a.Name+x.Op.String()+b.Name] = true
 				return fmt.Sprintf("(.v %s)", strconv.Quote(a.Name+x.Op.String()+b.Name)), tyBool
 			}
 		}
@@ -939,6 +941,9 @@ func (t *gsTr) methodCall(call *ast.CallExpr) (recv, callee string, ptrs, args [
 			a := call.Args[k]
 			k++
 			if kind, isPtr := ptrKind(f.Type); isPtr {
+				if u, isAddr := a.(*ast.UnaryExpr); isAddr && u.Op == token.AND {
+					a = u.X // &x: the struct variable x itself
+				}
 				id, isId := a.(*ast.Ident)
 				if !isId || t.kinds[id.Name] != kind {
 					gsDie(a, "pointer argument must be a %s variable", kind)
@@ -957,8 +962,42 @@ func (t *gsTr) methodCall(call *ast.CallExpr) (recv, callee string, ptrs, args [
 	if k != len(call.Args) {
 		gsDie(call, "call arity")
 	}
+	// hidden parameters: the callee compares its receiver with a pointer parameter
+	for _, hp := range goSrcAliasParams[callee] {
+		// hp = "<recv><op><param>", e.g. "i!=dst": find the argument bound to <param>
+		cr := cfd.Recv.List[0].Names[0].Name
+		op := "!="
+		if strings.Contains(hp, "==") {
+			op = "=="
+		}
+		pn := strings.TrimPrefix(hp, cr+op)
+		pi := 0
+		val := ""
+		for _, f := range cfd.Type.Params.List {
+			for _, nm := range f.Names {
+				if _, isPtr := ptrKind(f.Type); isPtr {
+					if nm.Name == pn && pi < len(ptrs) {
+						differ := ptrs[pi] != recv
+						if op == "==" {
+							differ = !differ
+						}
+						val = fmt.Sprintf("(.bool %v /- %s -/)", differ, hp)
+					}
+					pi++
+				}
+			}
+		}
+		if val == "" {
+			gsDie(call, "hidden parameter %s", hp)
+		}
+		args = append(args, val)
+	}
 	return recv, callee, ptrs, args, funcResultTypes(cfd), true
 }
+
+// goSrcAliasParams: per translated function, the pointer comparisons its body makes (filled while translating it;
+// callees are translated before their callers: goSrcFuncs is in dependency order for these)
+var goSrcAliasParams = map[string][]string{}
 
 // callback recognises a call of a function-valued parameter; the values it is handed are logged field by field.
 func (t *gsTr) callback(call *ast.CallExpr, target string) (string, bool) {
@@ -986,6 +1025,24 @@ func (t *gsTr) callback(call *ast.CallExpr, target string) (string, bool) {
 // newIter recognises `x := a.Iter()` (Array/Object receiver: the view and the offset) and `x := o.tape.Iter()`
 // (ParsedJson.Iter: the view, offset 0); the other fields are zero.
 func (t *gsTr) newIter(lhs *ast.Ident, rhs ast.Expr, ind string) (string, bool) {
+	// i := Iter{tape: *pj}
+	if cl, ok := rhs.(*ast.CompositeLit); ok && nows(src(cl.Type)) == "Iter" && len(cl.Elts) == 1 {
+		if kv, ok := cl.Elts[0].(*ast.KeyValueExpr); ok && nows(src(kv.Key)) == "tape" {
+			if st, ok := kv.Value.(*ast.StarExpr); ok {
+				if id, ok := st.X.(*ast.Ident); ok && t.kinds[id.Name] == "ParsedJson" {
+					n := lhs.Name
+					t.kinds[n] = "Iter"
+					t.iters[n] = true
+					return strings.Join([]string{
+						fmt.Sprintf(".assign %s (.int 0)", strconv.Quote(n+".off")),
+						fmt.Sprintf(".assign %s (.int 0)", strconv.Quote(n+".addNext")),
+						fmt.Sprintf(".assign %s (.u64 0)", strconv.Quote(n+".cur")),
+						fmt.Sprintf(".assign %s (.u8 0)", strconv.Quote(n+".t")),
+						fmt.Sprintf(".assign %s (.lenTape %s)", strconv.Quote(n+".lim"), strconv.Quote(id.Name))}, ",\n"+ind), true
+				}
+			}
+		}
+	}
 	call, ok := rhs.(*ast.CallExpr)
 	if !ok || len(call.Args) != 0 {
 		return "", false
@@ -1028,6 +1085,16 @@ func (t *gsTr) newIter(lhs *ast.Ident, rhs ast.Expr, ind string) (string, bool) 
 		fmt.Sprintf(".assign %s (.lenTape %s)", strconv.Quote(n+".lim"), strconv.Quote(src0)),
 	}
 	return strings.Join(parts, ",\n"+ind), true
+}
+
+// lvalue2 is lvalue for plain identifiers, without aborting
+func (t *gsTr) lvalue2(e ast.Expr) (string, gty) {
+	if id, ok := e.(*ast.Ident); ok {
+		if ty, ok := t.locals[id.Name]; ok {
+			return id.Name, ty
+		}
+	}
+	return "", tyUnk
 }
 
 // lvalue name of an assignable expression (local or iterator field)
@@ -1212,6 +1279,15 @@ func (t *gsTr) stmt0(s ast.Stmt, ind string) string {
 					delete(t.poison, okv.Name)
 					t.locals[okv.Name] = tyBool
 					return fmt.Sprintf(".assign %s (.inK (.v %s) %s)", strconv.Quote(okv.Name), strconv.Quote(m.Name), k)
+				}
+			}
+		}
+		if len(x.Rhs) == 1 && len(x.Lhs) == 1 && x.Tok == token.ASSIGN {
+			if call, isCall := x.Rhs[0].(*ast.CallExpr); isCall {
+				if name, _ := t.lvalue2(x.Lhs[0]); name != "" {
+					if cbs, ok := t.callback(call, name); ok {
+						return cbs
+					}
 				}
 			}
 		}
@@ -1478,6 +1554,18 @@ func (t *gsTr) stmt0(s ast.Stmt, ind string) string {
 		if len(vs.Names) != 1 || len(vs.Values) != 0 || vs.Type == nil {
 			gsDie(s, "declaration shape")
 		}
+		if id, ok := vs.Type.(*ast.Ident); ok && id.Name == "Iter" {
+			// a zero Iter: no tape
+			n := vs.Names[0].Name
+			t.kinds[n] = "Iter"
+			t.iters[n] = true
+			return strings.Join([]string{
+				fmt.Sprintf(".assign %s (.int 0)", strconv.Quote(n+".off")),
+				fmt.Sprintf(".assign %s (.int 0)", strconv.Quote(n+".addNext")),
+				fmt.Sprintf(".assign %s (.u64 0)", strconv.Quote(n+".cur")),
+				fmt.Sprintf(".assign %s (.u8 0)", strconv.Quote(n+".t")),
+				fmt.Sprintf(".assign %s (.int 0)", strconv.Quote(n+".lim"))}, ",\n"+ind)
+		}
 		ty := tyOfTypeExpr(vs.Type)
 		zero := map[gty]string{tyInt: "(.int 0)", tyU64: "(.u64 0)", tyU8: "(.u8 0)", tyBool: "(.bool false)", tyBytes: ".nilB"}[ty]
 		if at, ok := vs.Type.(*ast.ArrayType); ok && at.Len != nil {
@@ -1685,7 +1773,7 @@ func genGoSrc(p *pkgInfo, out string) {
 			die("gosrc: function %s not found", fn)
 		}
 		t := &gsTr{p: p, fn: fn, iters: map[string]bool{}, locals: map[string]gty{}, kinds: map[string]string{},
-			lconst: map[string]lconstV{}, poison: map[string]bool{}, swLabels: map[string]bool{}, loopLabels: map[string]bool{}}
+			lconst: map[string]lconstV{}, poison: map[string]bool{}, swLabels: map[string]bool{}, loopLabels: map[string]bool{}, aliasParams: map[string]bool{}}
 		t.iterFieldTypes()
 		t.frees = map[string]gty{}
 		rkind := "Iter"
@@ -1752,13 +1840,20 @@ func genGoSrc(p *pkgInfo, out string) {
 		if len(inits) > 0 {
 			body = "[\n  " + strings.Join(inits, ",\n  ") + ",\n  " + strings.TrimPrefix(strings.TrimPrefix(body, "[\n"), "  ")
 		}
+		var hidden []string
+		for hp := range t.aliasParams {
+			hidden = append(hidden, hp)
+		}
+		sort.Strings(hidden)
+		goSrcAliasParams[fn] = hidden
+		params = append(params, hidden...)
 		extra := ""
 		if rkind == "" {
 			extra += ", fields := []"
 		} else if rkind != "Iter" {
 			extra += ", fields := " + kindFields(rkind)
 		}
-		if len(ptrParams) > 0 && fn != "Iter.AdvanceIter" {
+		if len(ptrParams) > 0 {
 			extra += ", ptrParams := [" + strings.Join(ptrParams, ", ") + "]"
 		}
 		pos := fset.Position(fd.Pos())
@@ -1775,7 +1870,7 @@ func genGoSrc(p *pkgInfo, out string) {
 			die("gosrc: function %s not found", bs.fn)
 		}
 		t := &gsTr{p: p, fn: bs.fn, iters: map[string]bool{}, locals: map[string]gty{}, tapes: bs.tapes, frees: bs.frees, rtys: bs.rtys,
-			kinds: map[string]string{}, lconst: map[string]lconstV{}, poison: map[string]bool{}, swLabels: map[string]bool{}, loopLabels: map[string]bool{}}
+			kinds: map[string]string{}, lconst: map[string]lconstV{}, poison: map[string]bool{}, swLabels: map[string]bool{}, loopLabels: map[string]bool{}, aliasParams: map[string]bool{}}
 		t.iterFieldTypes()
 		for n, ty := range bs.locals {
 			t.locals[n] = ty
